@@ -38,6 +38,7 @@ type wrapReq struct {
 	Classes  []string     `json:"classes"`
 	Mode     string       `json:"mode"`  // c03: range-check mechanism of the builder (native | commit | plain), default native
 	Paths    []string     `json:"paths"` // noncanon: only these leaves (targets computed from the canonical-set trace)
+	PowBits  *int         `json:"pow_bits"` // noncanon: the grinding difficulty of the circuit description (both stored copies) set to this value
 }
 
 func init() { drv.Register("wrapper", wrapperDrv) }
@@ -105,7 +106,7 @@ func wrapperDrv(raw json.RawMessage, resp *drv.Response) error {
 // ---- C03: the on-chain public values bind exactly the plonky2 public inputs ---------------------------------
 
 type c03Case struct {
-	Kind  string   `json:"kind"`  // honest | limb+kp | pair+kp | limb+2^32 | pub+1 | pubswap | limbswap | rand
+	Kind  string   `json:"kind"`  // honest | limb+kp | limb+kp=V | pair+kp | limb+2^32 | pub+1 | pubswap | limbswap | rand
 	Limbs []int    `json:"limbs"` // limb indices
 	K     []string `json:"k"`     // multipliers
 }
@@ -125,7 +126,8 @@ func c03Run(req wrapReq, resp *drv.Response) error {
 		switch c.Kind {
 		case "honest":
 			want = "accept"
-		case "limb+kp", "pair+kp": // a second limb vector with the same residues modulo p; the public values are re-packed from it
+		case "limb+kp", "pair+kp", "limb+kp=V": // a second limb vector with the same residues modulo p; the public values are re-packed from it
+			// ("=V": the public values stay the packing of the original limbs - "no second set of limbs for the same public values")
 			for j, li := range c.Limbs {
 				var k *big.Int
 				if c.K[j] == "max" {
@@ -157,6 +159,9 @@ func c03Run(req wrapReq, resp *drv.Response) error {
 			l.PWPI.PublicInputs[i].Limb = limbs[i]
 		}
 		pub := hc.PackPublic(limbs)
+		if c.Kind == "limb+kp=V" {
+			pub = hc.PackPublic(pis)
+		}
 		for j := range pub {
 			pub[j].Mod(pub[j], bigR)
 		}
@@ -502,6 +507,15 @@ func detachVD(vd variables.VerifierOnlyCircuitData) variables.VerifierOnlyCircui
 func noncanonRun(req wrapReq, resp *drv.Response) error {
 	inst := data.ByName(req.Instance)
 	l := data.Load(inst, req.K)
+	if req.PowBits != nil {
+		// a description with a lower grinding difficulty: the proof stays valid (its response has more leading zeros than needed), and
+		// nothing about the encoding of the proof may depend on that field
+		l.Common.Config.FriConfig.ProofOfWorkBits = uint64(*req.PowBits)
+		l.Common.FriParams.Config.ProofOfWorkBits = uint64(*req.PowBits)
+		if err := hc.RunVerifier(&engine.Config{Mode: engine.Native}, l, l); err != nil {
+			return fmt.Errorf("the valid proof is rejected under proof_of_work_bits = %d: %s", *req.PowBits, firstLine(err))
+		}
+	}
 	leaves := walkPrefixed("PWPI.", &l.PWPI)
 	want := map[string]bool{}
 	for _, c := range req.Classes {
